@@ -202,12 +202,13 @@ Definition check_parse (c : pcase) : bool :=
 (* what a whole conversion must show for a deck without FILL: the VOLU ids of
    the file (in the order of the cell dictionary) and the list of the NOTE on
    stdout (None: no NOTE) *)
-Definition check_conv (c : pcase * list Z * option (list Z)) : bool :=
-  let '(pc, volu, nt) := c in
+Definition check_conv (c : pcase * list Z * option (list Z) * list string) : bool :=
+  let '(pc, volu, nt, lines) := c in
   match run_case pc with
   | Ok (cells, skipped) =>
       list_eqb Z.eqb (written_ids FS cells skipped) volu
       && option_eqb (list_eqb Z.eqb) (note skipped) nt
+      && list_eqb String.eqb (note_lines skipped) lines   (* the bytes of the NOTE *)
   | Err _ => false
   end.
 
